@@ -61,6 +61,16 @@ def gen_deflate(tier, rng):
                                                  calls=[[n, ao, 0, eos]] if table == 0 else [[n // 2, ao, [0, 1, 2][k % 3], 0], [n, 1 << 17, 0, eos]],
                                                  tail_ai=n, tail_ao=1 << 17, cap=2000, meta={"family": "first-output-sweep", "cls": cls}))
                         k += 1
+    # (v2) a small first piece that is only buffered, then a piece much larger than the internal buffer in ONE call: the compressor starts from
+    #      its internal buffer and has to switch over to the caller's buffer in the middle of the call
+    for cls, n in [("records", 110000), ("lowent", 90000)] + ([("text", 150000), ("random", 140000)] if tier == "thorough" else []):
+        inp = igz.corpus(rng, cls, n)
+        for level in range(4):
+            for first in (1, 100, 5000):
+                if tier == "quick" and (level + first) % 2: continue
+                scns.append(igz.scenario(len(scns), "deflate", inp, level=level, wrap=[0, 1, 3][k % 3], lbuf=[3, 0][k % 2], mem=[0, 1, 2][k % 3], prefill=k % 3,
+                                         calls=[[first, 1 << 18, 0, 0], [n, 1 << 18, [0, 1, 2][k % 3], 1]], tail_ai=n, tail_ao=1 << 18, cap=400, meta={"family": "small-then-huge", "cls": cls}))
+                k += 1
     # (vi) model-guided schedules: the harness walks the DeflateStream model's (control state, environment action) keys, always taking the
     #      least-visited (room class, hand over input, flush, end_of_stream) choice from the state the real stream is in (h_igzip.c adapt_choose)
     reps = 3 if tier == "quick" else 12
@@ -183,6 +193,24 @@ def run(tier, replay=None):
         out[name] = (scns, res, by)
         for s in scns:
             if len(by[s["scn"]]["calls"]) >= 2: fams[(name, s["meta"]["family"], s["level"], s["wrap"], s["mem"])] = 1
+        if name == "deflate" and not replay:
+            # streams the library itself just produced (level-0 default-table header, level 1-3 headers, stored blocks) go back in through isal_inflate
+            # under several schedules: the decoder has a fast path for its own default header when more than 118 bytes are offered at once
+            picked = {}
+            for s in scns:
+                b = by[s["scn"]]
+                if b["end"].get("state") == "END" and s["wrap"] in (0, 1, 3) and s["dictmode"] == 0 and (s["level"], s["wrap"], s["table"]) not in picked:
+                    o = [x for c in b["calls"] for x in c["out"]]
+                    if 200 < len(o) < 6000: picked[(s["level"], s["wrap"], s["table"])] = o
+            k2 = len(isc)
+            for (lv, wr, tb), o in sorted(picked.items())[:14]:
+                n2 = len(o)
+                for sched in ([[n2, 1 << 17, 0, 0]], [[150, 1 << 17, 0, 0], [n2, 1 << 17, 0, 0]], None, "adaptive"):
+                    meta = {"family": "own-stream", "salt": k2 % 6}
+                    if sched == "adaptive": meta["adaptive"] = 1 + k2
+                    isc.append(igz.scenario(len(isc), "inflate", o, wrap=wr, calls=sched if isinstance(sched, list) else [], tail_ai=[n2, 9][sched is None], tail_ao=[1 << 17, 64][sched is None],
+                                            cap=max(4000, 8 * n2), mem=k2 % 3, prefill=k2 % 3, meta=meta)); k2 += 1
+                isc.append(igz.scenario(len(isc), "inflate_stateless", o, wrap=wr, calls=[[n2, 1 << 17, 0, 0]], meta={"family": "own-stream", "salt": 0}))
     nd, ni = len(dsc), len(isc)
     models = {}
     if mcjobs:
